@@ -154,6 +154,9 @@ class Program:
                                      optsim.operand_input(self.lens, spec),
                                      target=spec.get('target'),
                                      weight=spec.get('weight', 1.0))
+            # the analysis objects may be made before the set of
+            # perturbations and compensators is complete
+            self.early_sens = self.early_mc = None
             self.pspecs = []
             for spec in hist['perturbations']:
                 if not self.applicable(spec):
@@ -168,6 +171,14 @@ class Program:
                     if with_samplers else mk_sampler(
                         {'kind': 'scalar', 'value': 0.0}), **kw)
                 self.pspecs.append(spec)
+                if hist.get('early_analysis') and with_samplers and \
+                        self.early_mc is None:
+                    # (the constructors insist on one perturbation)
+                    from optiland.tolerancing.sensitivity_analysis import \
+                        SensitivityAnalysis
+                    from optiland.tolerancing.monte_carlo import MonteCarlo
+                    self.early_sens = SensitivityAnalysis(self.tol)
+                    self.early_mc = MonteCarlo(self.tol)
             self.cspecs = []
             for spec in hist.get('compensators', []):
                 if not self.applicable(spec, comp=True):
@@ -313,7 +324,7 @@ class Sim:
         from optiland.tolerancing.monte_carlo import MonteCarlo
         P = Program(self.hist, self.stats)
         self.P = P
-        sens = mc = None
+        sens, mc = P.early_sens, P.early_mc
         tables = []
         last = None             # (object, rows) of the last completed run
         for st in self.hist['steps']:
@@ -813,6 +824,8 @@ def run_one(prop, run_seed, run_index, cfg):
     if hist['driver'] == 'stub':
         hist['plan'] = optsim.gen_plan(ch, max(1, len(comps)),
                                        ch.randint(2, 8))
+    if ch.side('early-analysis').chance(0.25):
+        hist['early_analysis'] = True
     res = execute(prop, hist)
     res['draws'] = ch.ndraws
     return res
